@@ -139,7 +139,10 @@ func canSafelyNarrowSigned[To constraints.Integer](val int64) bool {
 	case int64:
 		return true // trivially true (identity conversion)
 	}
-	return false // this should be unreachable
+	// To is a defined type whose underlying type is an integer (e.g. time.Duration):
+	// the value fits exactly when it converts back to itself with the same sign.
+	to := To(val)
+	return int64(to) == val && (to < 0) == (val < 0)
 }
 
 // canSafelyNarrowUnsigned tests whether the supplied val can be converted into 'To'
@@ -172,5 +175,8 @@ func canSafelyNarrowUnsigned[To constraints.Integer](val uint64) bool {
 	case int64:
 		return val <= math.MaxInt64
 	}
-	return false // this should be unreachable
+	// To is a defined type whose underlying type is an integer (e.g. time.Duration):
+	// the value fits exactly when it converts back to itself and stays non-negative.
+	to := To(val)
+	return uint64(to) == val && to >= 0
 }
